@@ -55,6 +55,8 @@ pub struct Take {
     pub path_rewrites: Vec<(String, String)>,
     /// R18: a single-fn trait impl (Drop) is emitted as an inherent method with this name
     pub as_inherent: Option<String>,
+    /// expression rewrites `A => B` (exact normalised text of an expression; declared per take)
+    pub expr_rewrites: Vec<(String, String)>,
     pub source: Option<String>,
     /// expect: the item's normalised source text must equal this text (else extraction problem)
     pub expect: Option<String>,
@@ -198,6 +200,10 @@ pub fn parse(text: &str, cdir: &str) -> Result<Vec<Dir>, String> {
                         let parts: Vec<&str> = arg.split_whitespace().collect();
                         if parts.len() != 2 { return Err(format!("spec line {}: @@.rewrite-path A B", i)); }
                         take.path_rewrites.push((parts[0].to_string(), parts[1].to_string()));
+                    }
+                    "rewrite-expr" => {
+                        let (a, b) = arg.split_once("=>").ok_or(format!("spec line {}: @@.rewrite-expr A => B", i))?;
+                        take.expr_rewrites.push((a.trim().to_string(), b.trim().to_string()));
                     }
                     "as-inherent" => take.as_inherent = Some(arg.to_string()),
                     "drop-self" => take.drop_self = Some(arg.to_string()),
